@@ -96,6 +96,8 @@ void out_f64_1(FILE *f, const char *name, double v);
 void out_f32_1(FILE *f, const char *name, float v);
 /* "begin" marker so that a crash can be attributed to a case */
 void out_begin_marker(const char *fam, long id);
+/* same, with a short note describing the input class (copied into the crash message by check) */
+void out_begin_note(const char *fam, long id, const char *note);
 
 typedef void (*family_fn)(ctx_t *c);
 typedef struct { const char *name; family_fn fn; const char *doc; } family_t;
